@@ -291,14 +291,36 @@ fn text_snippet(rng: &mut Rng) -> String {
 
 fn legend_snippet(rng: &mut Rng, pool: &Pool) -> String {
     let mut out = String::new();
-    let tags = ["a", "b", "c", "big", "x1"];
+    // a small common vocabulary plus a large space of one-off names (caches and
+    // interners keyed on tag text only show their limits with many distinct names)
+    let wide = rng.chance(1, 2);
+    let numbered: Vec<String> = (0..5).map(|_| format!("t{}", rng.below(240))).collect();
+    let base = ["a", "b", "c", "big", "x1"];
+    let tags: Vec<&str> = if wide { numbered.iter().map(|s| s.as_str()).collect() } else { base.to_vec() };
     let n = rng.urange(1, 3);
     for i in 0..n {
         let t = tags[(i + rng.usize_below(2)) % tags.len()];
-        match rng.below(3) {
-            0 => out.push_str(&format!("+-----+\n|{{{}}}  |\n+-----+\n", t)),
-            1 => out.push_str(&format!(" .---.\n( {{{}}} )\n '---'\n", t)),
-            _ => out.push_str(&format!("/----\\\n|{{{}}} |\n\\----/\n", t)),
+        // one tag, or a list `{a,b}` (several classes on one shape)
+        let inner = if rng.chance(1, 4) {
+            let t2 = tags[(i + 2) % tags.len()];
+            format!("{{{},{}}}", t, t2)
+        } else {
+            format!("{{{}}}", t)
+        };
+        // shapes sized to the tag text so that they are really recognised
+        let w = inner.chars().count() + 2;
+        match rng.below(4) {
+            0 => out.push_str(&format!("+{}+\n| {} |\n+{}+\n", "-".repeat(w), inner, "-".repeat(w))),
+            1 => out.push_str(&format!(".{}.\n| {} |\n'{}'\n", "-".repeat(w), inner, "-".repeat(w))),
+            2 => out.push_str(&format!("+{}+\n|{}|\n| {} |\n+{}+\n", "-".repeat(w), " ".repeat(w), inner, "-".repeat(w))),
+            _ => {
+                // the circle drawings of the test data, with the tag inside
+                if t.len() == 1 {
+                    out.push_str(&format!("   _\n .' '.\n( {{{}}} )\n `._.'\n", t));
+                } else {
+                    out.push_str(&format!("/{}\\\n| {} |\n\\{}/\n", "-".repeat(w), inner, "-".repeat(w)));
+                }
+            }
         }
         out.push('\n');
     }
